@@ -10,26 +10,49 @@ from . import build, paths
 FORBIDDEN = re.compile(
     r'\b(Admitted|admit|Axiom|Axioms|Parameter|Parameters|Conjecture|Conjectures|Abort All)\b'
     r'|Admit Obligations|Unset Guard Checking|Unset Positivity Checking|Unset Universe Checking'
-    r'|bypass_check|Guard Checking|type-in-type|impredicative-set')
+    r'|bypass_check|Guard Checking|type-in-type|impredicative-set|Declare\s+Module|Declare\s+Instance')
 
 # axioms of the standard library that a proof may depend on (none are expected)
 ALLOWED_AXIOMS = set()
 
 
 def strip_comments(text):
+    """Removes (* ... *) comments the way Coq's lexer sees them: comments nest, and a string literal inside a comment is
+    lexed as a string (so a `*)` inside it does not close the comment); outside comments `(*` inside a string is text."""
     out = []
     depth = 0
     i = 0
-    instr = False
-    while i < len(text):
-        if not instr and text.startswith('(*', i):
-            depth += 1; i += 2; continue
-        if not instr and depth and text.startswith('*)', i):
-            depth -= 1; i += 2; continue
+    instr = False      # inside a string literal outside comments
+    cstr = False       # inside a string literal inside a comment
+    n = len(text)
+    while i < n:
+        ch = text[i]
         if depth == 0:
-            if text[i] == '"':
-                instr = not instr
-            out.append(text[i])
+            if instr:
+                out.append(ch)
+                if ch == '"':
+                    instr = False
+                i += 1
+                continue
+            if text.startswith('(*', i):
+                depth = 1; i += 2; continue
+            if ch == '"':
+                instr = True
+            out.append(ch)
+            i += 1
+            continue
+        # inside a comment
+        if cstr:
+            if ch == '"':
+                cstr = False
+            i += 1
+            continue
+        if ch == '"':
+            cstr = True; i += 1; continue
+        if text.startswith('(*', i):
+            depth += 1; i += 2; continue
+        if text.startswith('*)', i):
+            depth -= 1; i += 2; continue
         i += 1
     return ''.join(out)
 
@@ -55,17 +78,30 @@ def scan_forbidden():
                         depth += 1
                     elif re.match(r'\s*End\b', l) and depth:
                         depth -= 1
-                    elif depth == 0 and re.match(r'\s*(Variable|Variables|Hypothesis|Hypotheses|Context)\b', l):
+                    elif depth == 0 and re.search(r'(^|\.\s+)\s*(Variable|Variables|Hypothesis|Hypotheses|Context)\b', l):
                         bad.append('%s:%d: %s outside a section' % (os.path.relpath(p, paths.COQ), ln, l.strip()))
     return bad
 
 
+_CACHE = {}
+
+
+def continuations(prop):
+    """Props/<prop>b.v, <prop>c.v, ...: theorems of the same property that need proof files which depend on Props/<prop>.v"""
+    if not re.fullmatch(r'C\d\d', prop):
+        return []
+    d = os.path.join(paths.COQ, 'theories', 'Props')
+    return sorted(f[:-2] for f in os.listdir(d) if re.fullmatch(re.escape(prop) + r'[b-z]\.v', f))
+
+
 def check_property(prop):
-    """Props/<prop>.v plus, when present, its continuation Props/<prop>b.v (theorems that need proof files which
-    themselves depend on Props/<prop>.v).  -> dict(ok, obligations, discharged, theorems, assumptions, errors, checker_cmd)"""
-    res = check_one(prop)
-    if os.path.exists(os.path.join(paths.COQ, 'theories', 'Props', prop + 'b.v')) and not prop.endswith('b'):
-        more = check_one(prop + 'b')
+    """Props/<prop>.v plus every continuation Props/<prop>[b-z].v.
+    -> dict(ok, obligations, discharged, theorems, assumptions, errors, checker_cmd)"""
+    res = dict(check_one(prop))
+    for k in ('theorems', 'errors', 'assumptions'):
+        res[k] = list(res[k])
+    for cont in continuations(prop):
+        more = check_one(cont)
         res['ok'] = res['ok'] and more['ok']
         for k in ('obligations', 'discharged'):
             res[k] += more[k]
@@ -79,6 +115,12 @@ def check_property(prop):
 
 
 def check_one(prop):
+    if prop not in _CACHE:
+        _CACHE[prop] = _check_one(prop)
+    return _CACHE[prop]
+
+
+def _check_one(prop):
     rel = 'theories/Props/%s.v' % prop
     src = os.path.join(paths.COQ, rel)
     res = dict(ok=False, obligations=0, discharged=0, theorems=[], assumptions=[], errors=[],
@@ -100,8 +142,13 @@ def check_one(prop):
         res['errors'].append('proof obligations do not compile:\n' + e.output[-3000:])
         return res
     # re-run coqc on the statement file to capture Print Assumptions
-    p = subprocess.run(['timeout', '600', 'coqc', '-Q', 'theories', 'CG', '-Q', 'gen', 'CGgen', rel],
-                       cwd=paths.COQ, stdout=subprocess.PIPE, stderr=subprocess.STDOUT)
+    # (output goes to a scratch file: rewriting Props/*.vo in place would force rebuilds of what depends on it)
+    scratch = os.path.join(paths.CACHE, 'pa-%d' % os.getpid())
+    os.makedirs(scratch, exist_ok=True)
+    p = subprocess.run(['timeout', '1800', 'coqc', '-Q', 'theories', 'CG', '-Q', 'gen', 'CGgen', '-o', os.path.join(scratch, prop + '.vo'), rel],
+                       cwd=paths.COQ, stdout=subprocess.PIPE, stderr=subprocess.STDOUT, env=build.clean_env())
+    import shutil
+    shutil.rmtree(scratch, ignore_errors=True)
     out = p.stdout.decode('utf-8', 'replace')
     if p.returncode != 0:
         res['errors'].append('coqc failed on %s:\n%s' % (rel, out[-3000:]))
@@ -118,6 +165,8 @@ def check_one(prop):
     npa = len(re.findall(r'^\s*Print Assumptions', text, re.M))
     if npa < len(thms):
         res['errors'].append('%d theorems but only %d Print Assumptions' % (len(thms), npa))
+    if closed != npa:
+        res['errors'].append('%d Print Assumptions but %d of them answer "Closed under the global context"' % (npa, closed))
     for t in thms:
         if t not in pins and not t.startswith('ex_'):
             res['errors'].append('theorem %s is not pinned by a Check' % t)
